@@ -183,7 +183,8 @@ pub struct KnownFinding {
 }
 
 fn load_known_findings(id: &str) -> Vec<KnownFinding> {
-    let path = format!("{VERIF_ROOT}/known_findings.jsonl");
+    // $VERIF_KNOWN_FINDINGS: another list (harness self-tests of the resync path only)
+    let path = std::env::var("VERIF_KNOWN_FINDINGS").unwrap_or_else(|_| format!("{VERIF_ROOT}/known_findings.jsonl"));
     let Ok(text) = fs::read_to_string(&path) else { return vec![] };
     let mut out = vec![];
     for (n, line) in text.lines().enumerate() {
